@@ -8,6 +8,8 @@ only the property text.  The patch is applied in a scratch worktree outside /rep
     tools/seeded.py            # own property's check on every seeded change
     tools/seeded.py --all      # every property's check on every seeded change
     tools/seeded.py C05 C07    # only these properties' seeded changes
+    tools/seeded.py --confirm  # also run each demo.py on the clean and on the patched scratch tree (this executes
+                               # GEMSEO; it confirms the seeded change, it is not part of any check)
 
 Writes seeded/<property>/<k>/result.json and prints a table.  Exit 0 always (this is a
 measurement of the checks, not a check).
@@ -56,11 +58,34 @@ def main(argv):
         print(r.stderr)
         return 0
     rows = []
+    confirm = "--confirm" in argv
     try:
         for case in cases:
             pid = case.parent.name
-            sh("git", "-C", str(wt), "checkout", "--", ".")
+            for _ in range(5):
+                sh("git", "-C", str(wt), "reset", "-q", "--hard", "HEAD")
+                if not sh("git", "-C", str(wt), "status", "--porcelain", "--untracked-files=no").stdout.strip():
+                    break
+            else:
+                raise SystemExit(f"scratch worktree could not be cleaned before {case}")
+            demo = {}
+            if confirm and (case / "demo.py").exists():
+                env = dict(os.environ, PYTHONPATH=str(wt / "src"))
+                d0 = subprocess.run([PY, str(case / "demo.py")], cwd=tmp, env=env, capture_output=True, text=True, timeout=900)
+                demo["demo_original_exit"] = d0.returncode
             a = sh("git", "-C", str(wt), "apply", str(case / "patch.diff"))
+            if a.returncode:
+                # the patch was written against an older HEAD (a later fix: commit touched its context)
+                sh("git", "-C", str(wt), "checkout", "--", ".")
+                a = sh("git", "-C", str(wt), "apply", "--3way", str(case / "patch.diff"))
+                sh("git", "-C", str(wt), "reset", "-q")
+                if not a.returncode and sh("git", "-C", str(wt), "diff", "--check").stdout.count("conflict"):
+                    a.returncode = 1
+            if confirm and not a.returncode and (case / "demo.py").exists():
+                d1 = subprocess.run([PY, str(case / "demo.py")], cwd=tmp, env=env, capture_output=True, text=True, timeout=900)
+                demo["demo_mutated_exit"] = d1.returncode
+                demo["demo_mutated_last_line"] = (d1.stdout.strip().splitlines() or [""])[-1][:300]
+                demo["confirmed"] = demo["demo_original_exit"] == 0 and d1.returncode != 0
             if a.returncode:
                 res = {"applies": False, "error": a.stderr.strip()[:300]}
             else:
@@ -76,6 +101,9 @@ def main(argv):
                     "analysis_error": own["error"],
                     "other_checks_firing": {p: o["rules"] for p, o in out.items() if p != pid and o["exit"] == 1},
                 }
+                prev = json.loads((case / "result.json").read_text()) if (case / "result.json").exists() else {}
+                res.update({k: v for k, v in prev.items() if k.startswith(("demo_", "confirmed"))})
+                res.update(demo)
             (case / "result.json").write_text(json.dumps(res, indent=1) + "\n")
             meta = json.loads((case / "meta.json").read_text()) if (case / "meta.json").exists() else {}
             rows.append((pid, case.name, meta.get("title", "")[:60], res))
